@@ -1,10 +1,10 @@
 #!/bin/bash
-# usage: tools/try_seed.sh <patch.diff> <Cxx> [tier]
+# usage: tools/try_seed.sh <patch.diff> <Cxx> [tier] [jobs-filter]
 # Applies a seeded change to a scratch worktree of /repo's HEAD (never to /repo itself) and runs the check against
 # that tree (VC_REPO / VC_WORK), then removes worktree and work directory.
-P=$(readlink -f "$1"); C=$2; T=${3:-quick}
+P=$(readlink -f "$1"); C=$2; T=${3:-quick}; J=${4:-}
 W=$(mktemp -d /tmp/ts_XXXXXX)
 git -C /repo worktree add --detach "$W/repo" HEAD >/dev/null 2>&1 || { echo "worktree failed"; exit 2; }
 git -C "$W/repo" apply "$P" || { echo "patch does not apply"; git -C /repo worktree remove --force "$W/repo"; rm -rf "$W"; exit 2; }
-cd /verif && VC_REPO="$W/repo" VC_WORK="$W/work" ./run.py "$C" --tier "$T" 2>&1 | grep -E "VIOLATION|^OK|UNDECIDED|KNOWN|failed obligation" | head -12
+cd /verif && VC_REPO="$W/repo" VC_WORK="$W/work" ./run.py "$C" --tier "$T" ${J:+--jobs "$J"} 2>&1 | grep -E "VIOLATION|^OK|UNDECIDED|KNOWN|DEGRADED|failed obligation" | head -12
 git -C /repo worktree remove --force "$W/repo" >/dev/null 2>&1; rm -rf "$W"
